@@ -919,3 +919,83 @@ def main(ns, prop, tier, seed, write_evidence, known):
         print("HARNESS-ERROR nothing evaluated")
         return 2
     return rcode
+
+
+# ============================================================ C16 enumeration
+
+C16_ALPHABET = [0x00, 0x01, 0x02, 0x03, 0x04, 0x10, 0x20, 0x30, 0x32, 0x34, 0x36, 0x40, 0x50, 0x62, 0x70, 0x7F, 0x80,
+                0x90, 0xB0, 0xD0, 0xE0, 0xFF]
+
+
+def c16_enum_chunk(args):
+    """Every byte string up to `maxlen` over C16_ALPHABET, injected in a fixed
+    set of protocol states with requests pending (systematic part of C16)."""
+    maxlen, lo, hi, tier = args
+    from sim import boot
+    ns = boot.boot()
+    out = {"strings": 0, "runs": 0, "viol": {}, "states": 0}
+    strings = []
+    for n in range(1, maxlen + 1):
+        for tup in itertools.product(C16_ALPHABET, repeat=n):
+            strings.append(bytes(tup))
+    strings = strings[lo:hi]
+    # the states: (profile, prefix steps)
+    def prefix(profile, stage):
+        pre = [{"op": "app.build", "addr": "A"},
+               {"op": "app.call", "addr": "A", "m": "setWindowSize", "a": [4]},
+               {"op": "app.call", "addr": "A", "m": "connect", "a": ["enum"], "k": {"keepalive": 0, "cleanStart": True}}]
+        if stage == "connecting":
+            if profile & 2:
+                pre.append({"op": "app.call", "addr": "A", "m": "publish", "k": {"topic": "t", "message": "m", "qos": 1}})
+            return pre
+        pre.append({"op": "brk.connack", "addr": "A", "rc": 0})
+        if profile & 2:
+            pre.append({"op": "app.call", "addr": "A", "m": "publish", "k": {"topic": "t", "message": "m", "qos": 1}})
+            pre.append({"op": "app.call", "addr": "A", "m": "publish", "k": {"topic": "t", "message": "m", "qos": 2}})
+            pre.append({"op": "app.call", "addr": "A", "m": "publish", "k": {"topic": "t", "message": "n", "qos": 2}})
+            pre.append({"op": "brk.ack", "addr": "A", "kind": "PUBREC", "ref": 1})
+        if profile & 1:
+            pre.append({"op": "app.call", "addr": "A", "m": "subscribe", "a": ["s/#", 1]})
+            pre.append({"op": "app.call", "addr": "A", "m": "unsubscribe", "a": ["u"]})
+            pre.append({"op": "brk.publish", "addr": "A", "qos": 2, "id": 0x0101, "topic": "in", "payload": "p"})
+        return pre
+    states = [(p, st) for p in (1, 2, 3) for st in ("connecting", "connected")]
+    out["states"] = len(states)
+    for (prof, stage) in states:
+        cfg = {"profile": prof, "version": 4, "jitter": "zero", "family": "c16enum"}
+        pre = prefix(prof, stage)
+        for sb in strings:
+            steps = pre + [{"op": "brk.raw", "addr": "A", "hex": sb.hex()}, {"op": "drain"}, {"op": "silence"}]
+            r = runner.run_steps(ns, cfg, steps, ["C16"])
+            out["runs"] += 1
+            for v in r.violations:
+                if v.sig not in out["viol"]:
+                    out["viol"][v.sig] = {"sig": v.sig, "seed": 0, "family": "c16enum:%d:%s" % (prof, stage), "msg": v.msg,
+                                          "nsteps": len(steps), "cfg": cfg, "steps": steps, "count": 1}
+                else:
+                    out["viol"][v.sig]["count"] += 1
+    out["strings"] = len(strings)
+    return out
+
+
+def c16_enumeration(ns, tier):
+    maxlen = 2 if tier == "quick" else 3
+    total = sum(len(C16_ALPHABET) ** n for n in range(1, maxlen + 1))
+    workers = int(os.environ.get("VERIF_WORKERS", "0")) or min(16, os.cpu_count() or 4)
+    per = (total + workers * 2 - 1) // (workers * 2)
+    jobs = [(maxlen, lo, min(total, lo + per), tier) for lo in range(0, total, per)]
+    ctx = multiprocessing.get_context("fork")
+    res = {"viol": [], "coverage": {"enumerated_strings": total, "alphabet": [hex(x) for x in C16_ALPHABET], "max_length": maxlen,
+                                    "runs": 0, "states": 0, "exhaustive_over_alphabet": True}}
+    agg = {}
+    with ProcessPoolExecutor(max_workers=workers, mp_context=ctx) as ex:
+        for part in ex.map(c16_enum_chunk, jobs):
+            res["coverage"]["runs"] += part["runs"]
+            res["coverage"]["states"] = part["states"]
+            for sig, e in part["viol"].items():
+                if sig not in agg:
+                    agg[sig] = e
+                else:
+                    agg[sig]["count"] += e["count"]
+    res["viol"] = list(agg.values())
+    return res
